@@ -2702,6 +2702,19 @@ FROM (
         builder: SQLBuilder,
     ) -> str:
         """Join a CASE condition dataset and return the SQL condition expression."""
+        # A dataset-level expression (DS_1 > 3, not DS_b, ...) is joined as a whole and its
+        # boolean measure tested; only a condition over DS#component is a column expression.
+        if (
+            not isinstance(case_obj.condition, AST.VarID)
+            and self._get_node_type(case_obj.condition) == _DATASET
+            and not self._has_membership(case_obj.condition)
+        ):
+            expr_ds = self._get_dataset_structure(case_obj.condition)
+            if expr_ds is not None and expr_ds.get_measures_names():
+                self._left_join_dataset(
+                    case_obj.condition, _DATASET, alias, source_ids, alias_src, builder
+                )
+                return f"{alias}.{quote_name(list(expr_ds.get_measures_names())[0])}"
         cond_source = self._find_condition_source(case_obj.condition)
         cond_ds = self._get_dataset_structure(cond_source) if cond_source else None
         if cond_source is not None:
